@@ -63,14 +63,14 @@ def _pw_time():
     k = _K()
     if k is None:
         return _k._real_time()
-    return k.now_ns / 1e9
+    return (k.now_ns + k.wall_offset) / 1e9
 
 
 def _pw_time_ns():
     k = _K()
     if k is None:
         return _k._real_time_ns()
-    return k.now_ns
+    return k.now_ns + k.wall_offset
 
 
 def _pw_monotonic():
